@@ -78,8 +78,19 @@ def gen_cfg(rng):
     shapes = [s for s in G.shapes(4) if 3 <= len(s) <= 4]
     shape = rng.choice(shapes)
     halt = [("deq", 4)] if rng.random() < 0.7 else []
-    return dict(phen=[(1, [G.pattern(1, G.assign(shape, rng.choice([0, 1]), "distinct"), (), halt, False)])],
-                maxcache=100, idbase=1000)
+    p1 = G.pattern(1, G.assign(shape, rng.choice([0, 1]), "distinct"), (), halt, False)
+    r = rng.random()
+    if r < 0.65:
+        return dict(phen=[(1, [p1])], maxcache=100, idbase=1000)
+    # a second pattern over the same data: one input advances a run of the first and starts a run of the second, so
+    # one message names runs of two patterns (the receiver may hold runs of only one of them)
+    p2 = second_pattern(rng.choice([2, 3]))
+    return dict(phen=[(1, [p1, p2])] if r < 0.82 else [(1, [p1]), (2, [p2])], maxcache=100, idbase=1000)
+
+
+def second_pattern(first):
+    syms = [first, first % 3 + 1, (first + 1) % 3 + 1]
+    return G.pattern(2, [G.blk([("deq", d)], "R", i + 1) for i, d in enumerate(syms)], (), (), False)
 
 
 def gen_schedules(ctx):
@@ -105,6 +116,14 @@ def gen_schedules(ctx):
         out.append((cfg1, 2, list(seq), [1, 1, 2, 1, 3, 1]))
         if len(out) % 3 == 0:
             out.append((cfg0, 2, list(seq), [1, 2, 4, 1, 2, 3]))
+    # two patterns over the same data (1 ; 2.. ; 3 and 2 ; 3 ; 1): datum 2 advances a run of the first and starts one of
+    # the second, in one note
+    cfg2 = dict(phen=[(1, [cfg0["phen"][0][1][0], second_pattern(2)])], maxcache=100, idbase=1000)
+    cfg3 = dict(phen=[(1, [cfg0["phen"][0][1][0]]), (2, [second_pattern(2)])], maxcache=100, idbase=1000)
+    for seq in itertools.product(alpha_m, repeat=4):
+        if sum(1 for a in seq if a[0] == "in") < 2:
+            continue
+        out.append((cfg2 if len(out) % 2 else cfg3, 2, list(seq), [1, 2, 3, 1, 2, 3]))
     for _ in range(700 if ctx.quick else 15000):
         n = rng.choice([2, 2, 3])
         cfg = gen_cfg(rng)
